@@ -21,9 +21,9 @@ Attrs(e) == [parent |-> e.attrs.parent, height |-> e.attrs.height, gt |-> e.attr
 
 Obs(e) == [stored |-> Rng(e.st.stored), inlc |-> Rng(e.st.inlc),
            lc |-> [h \in 1..MaxH |-> e.st.lc[h]], tip |-> e.st.tip, utxo |-> Rng(e.st.utxo),
-           top |-> e.st.top]
+           top |-> e.st.top, loaded |-> e.st.loaded]
 
-Accepted(res) == res \in {"AddedLc", "AddedSide"}
+Accepted(res) == res \in {"AddedLc", "AddedSide"}    \* "Retry" (fetch the parent first), "Invalid", "Exists": not stored
 IsPanic(res) == Len(res) >= 6 /\ SubSeq(res, 1, 6) = "Panic:"
 
 Bad(e, prop, why) == [pos |-> l, scn |-> e.scn, i |-> e.i, b |-> e.b, prop |-> prop, why |-> why, res |-> e.res]
@@ -113,7 +113,7 @@ TraceNext ==
     /\ l <= Len(Rec)
     /\ LET e == Rec[l] IN
        IF e.ev = "Reset"
-       THEN /\ A' = <<>> /\ S' = EmptyState /\ wal' = <<>> /\ bad' = bad /\ det' = FALSE /\ lost' = FALSE
+       THEN /\ A' = <<>> /\ S' = [EmptyState EXCEPT !.loaded = e.loaded] /\ wal' = <<>> /\ bad' = bad /\ det' = FALSE /\ lost' = FALSE
        ELSE LET A2 == IF e.b \in DOMAIN A THEN A ELSE (e.b :> Attrs(e)) @@ A
                 T == Obs(e)
                 det2 == det \/ DetachedReorg(A2, S, e.b)
